@@ -219,6 +219,12 @@ Proof.
   induction rs as [|r rs IH]; cbn [map zip_with]; [reflexivity|]. rewrite IH, due_reread. reflexivity.
 Qed.
 
+(* the presented totals.rounding read back: already at the currency's decimals *)
+Lemma rounding_reread c (o : option amount) :
+  match match o with Some r => Some (rescale r c) | None => None end with Some r => Some (rescale r c) | None => None end
+  = match o with Some r => Some (rescale r c) | None => None end.
+Proof. destruct o as [r|]; [|reflexivity]. rewrite rescale_same by apply rescale_exp. reflexivity. Qed.
+
 (* ---------------- the whole document ---------------- *)
 Definition fixpoint_doc_wf (d : doc) : Prop :=
   currency_doc_wf d /\
@@ -228,7 +234,7 @@ Definition fixpoint_doc_wf (d : doc) : Prop :=
 Theorem calc_fixpoint_currency d d1 :
   fixpoint_doc_wf d -> as_input d = Some d1 -> calculate d1 = calculate d.
 Proof.
-  intros ((Hcr & Hitems & Hadv & Hrnd) & HW & HD & HC) HA.
+  intros ((Hcr & Hitems & Hadv) & HW & HD & HC) HA.
   unfold as_input in HA. rewrite Hcr in HA.
   set (c := d_c d) in *.
   destruct (calc_lines true c (d_cur d) (d_rates d) (d_lines d)) as [lcs|] eqn:EL; [|discriminate].
@@ -271,6 +277,6 @@ Proof.
     destruct (tax_lines lcs (d_lines d) _ _) as [|tl0 tls0]; [discriminate|].
     destruct (remove_included_all (d_pit d) (map (prepare_tl c) (tl0 :: tls0))) as [tls2|]; [|discriminate].
     (* advances and dues: the stored rows are the presented rows of this very calculation *)
-    inversion CD as [CDt]. cbn [t_adv_rows t_dues].
-    rewrite (advances_reread c _ _ Hadv), dues_reread. reflexivity.
+    inversion CD as [CDt]. cbn [t_adv_rows t_dues t_rounding].
+    rewrite (advances_reread c _ _ Hadv), rounding_reread, dues_reread. reflexivity.
 Qed.
